@@ -38,18 +38,21 @@ def hang_result(obs, prop_is_liveness=False):
     }
 
 
+def run_any(spec):
+    fe = spec.get('front_end', 'manager')
+    if fe == 'manager':
+        return scenario.run(spec)
+    from . import frontends
+
+    return frontends.run_legacy(spec) if fe == 'legacy' else frontends.run_procpool(spec)
+
+
 def run_with(spec, evaluate, liveness=False):
     """Run a scenario, evaluate oracles, clean up, build a result dict.
 
     ``evaluate(obs) -> (violations, stats, nontrivial: bool, summary)``
     """
-    fe = spec.get('front_end', 'manager')
-    if fe == 'manager':
-        obs = scenario.run(spec)
-    else:
-        from . import frontends
-
-        obs = frontends.run_legacy(spec) if fe == 'legacy' else frontends.run_procpool(spec)
+    obs = run_any(spec)
     try:
         if obs.hang is not None:
             if not hasattr(obs, 'events'):
